@@ -179,8 +179,8 @@ func (c *shardedMapOf[V]) ExpireAll(ctx context.Context) {
 		b := &c.hashedBuckets[i]
 		b.Lock()
 		for h, v := range b.data {
-			v.E = startTS
-			b.data[h] = v
+			// Entry is replaced, readers that hold the old one after unlocking must not see it change.
+			b.data[h] = &TraitEntryOf[V]{K: v.K, V: v.V, E: startTS, C: atomic.LoadInt64(&v.C)}
 			cnt++
 		}
 		b.Unlock()
